@@ -238,6 +238,73 @@ def check_cuts_daqmx(run, rng, cases, meta):
     return True
 
 
+def check_cuts_interleaved_string(run, rng):
+    """A layout the reader supports although the file model excludes it: a segment with ONE string channel that
+    carries the kTocInterleavedData flag (read as contiguous).  Direct oracle only (prefix, len, lazy == eager,
+    flag), on every cut; one or two such segments, explicit length or the 'length unknown' marker."""
+    import struct
+    words = ["", "a", "bc", "def", "\u00e9\u00df", "ghij", "klmno", "0123456789"]
+
+    def tds(b):
+        return struct.pack("<L", len(b)) + b
+
+    unknown = rng.random() < 0.4
+    nseg = rng.choice([1, 1, 2])
+    full, bounds, allvals = b"", [], []
+    for j in range(nseg):
+        strs = [rng.choice(words).encode("utf-8") for _ in range(rng.randrange(1, 6))]
+        ends, tot = [], 0
+        for t in strs:
+            tot += len(t)
+            ends.append(tot)
+        data = struct.pack("<%dL" % len(ends), *ends) + b"".join(strs)
+        index = struct.pack("<LLQQ", 0x20, 1, len(strs), len(data))
+        md = struct.pack("<L", 1) + tds(b"/'g'/'s'") + struct.pack("<L", 28) + index + struct.pack("<L", 0)
+        toc = (1 << 1) | (1 << 2) | (1 << 3) | (1 << 5)
+        nxt = 0xFFFFFFFFFFFFFFFF if (unknown and j == nseg - 1) else len(md) + len(data)
+        seg = b"TDSm" + struct.pack("<llQQ", toc, 4713, nxt, len(md)) + md + data
+        bounds.append((len(full), len(full) + 28 + len(md), len(full) + len(seg)))
+        full += seg
+        allvals.append(strs)
+    path = b"/'g'/'s'"
+    try:
+        comp, _, _ = read_struct(full, lazy=False)
+    except Exception as ex:     # noqa: BLE001
+        run.violation("cut-interleaved-string-complete", "complete interleaved-flagged string file raises %r" % ex,
+                      {"op": "cut", "hex": full.hex(), "cut": len(full), "unknown": unknown}, actual=repr(ex)[:300])
+        return
+    cv = comp.get(path, (0, []))[1]
+    for k in range(4, len(full) + 1):
+        data = full[:k]
+        run.cov["evaluations"] += 1
+        run.count("interleaved_string_" + ("unknown_marker" if unknown else "explicit_length"))
+        case = {"op": "cut", "hex": full.hex(), "cut": k, "unknown": unknown, "desc": "interleaved-flagged string channel"}
+        in_raw = any(dp <= k < e for (_, dp, e) in bounds)
+        exp_inc = in_raw or (unknown and k >= bounds[-1][1])
+        whole = sum(len(v) for v, (_, _, e) in zip(allvals, bounds) if e <= k)
+        try:
+            eager, inc, _ = read_struct(data, lazy=False)
+            lz, inc2, _ = read_struct(data, lazy=True)
+        except Exception as ex:     # noqa: BLE001
+            run.violation("cut-interleaved-string-raises", "cut at %d of an interleaved-flagged string segment raises %r"
+                          % (k, ex), case, expected="no exception", actual=repr(ex)[:300])
+            return
+        ln, vals = eager.get(path, (0, []))
+        if vals != cv[:len(vals)] or ln != len(vals) or len(vals) < whole:
+            run.violation("cut-interleaved-string-not-prefix",
+                          "cut at %d: interleaved-flagged string channel has len %d, %d values, %d expected at least; "
+                          "prefix of the complete values: %s" % (k, ln, len(vals), whole, vals == cv[:len(vals)]),
+                          case, expected="prefix", actual={"len": ln, "values": len(vals)})
+            return
+        if lz != eager or inc2 != inc:
+            run.violation("cut-interleaved-string-lazy", "cut at %d: lazy read differs from eager" % k, case)
+            return
+        if inc != exp_inc:
+            run.violation("cut-interleaved-string-status", "cut at %d: incomplete_final_segment=%s, expected %s"
+                          % (k, inc, exp_inc), case, expected=exp_inc, actual=inc)
+            return
+
+
 def cases_append(cases, meta, data, toks, impl, case, failed, want):
     if want:
         cases.append(R.case_all(data, toks))
@@ -275,6 +342,22 @@ def main():
         case = json.load(open(run.replay))["case"]
         full = bytes.fromhex(case["hex"])
         data = full[:case["cut"]] if "cut" in case else full
+        if case.get("desc") == "interleaved-flagged string channel":
+            # outside the file model: direct oracle only
+            run.cov["evaluations"] += 1
+            try:
+                comp, _, _ = read_struct(full, lazy=False)
+                e, inc, _ = read_struct(data, lazy=False)
+                l, inc2, _ = read_struct(data, lazy=True)
+                for p_, (ln, vals) in e.items():
+                    cv = comp.get(p_, (0, []))[1]
+                    if vals != cv[:len(vals)] or ln != len(vals):
+                        run.violation("cut-interleaved-string-not-prefix", "still not a prefix / wrong len", case)
+                if e != l or inc != inc2:
+                    run.violation("cut-interleaved-string-lazy", "lazy still differs from eager", case)
+            except Exception as ex2:     # noqa: BLE001
+                run.violation("cut-interleaved-string-raises", "still raises %r" % ex2, case, actual=repr(ex2))
+            run.finish()
         toks, ex = G.read_eager(data)
         R.run_agree_all(run, [R.case_all(data, toks)], [{"data": data, "impl": R.exc_kind(ex)}], "replay", "replay")
         try:
@@ -299,6 +382,8 @@ def main():
         if check_cuts_daqmx(run, rng, cases, meta):
             run.cov["distinct_nontrivial"] += 1
             run.count("files")
+    for i in range(run.pick(8, 200)):
+        check_cuts_interleaved_string(run, rng)
     R.run_agree_all(run, cases, meta, "cuts", "truncated file")
     run.cov["exhaustive"] = True
     run.cov["rule"] = ("well-formed files of 60-700 bytes (1-3 segments, all layouts/types; every third with the "
